@@ -1,7 +1,9 @@
 import Driver.Latch
+import Driver.LockFam
+import Driver.Barrier
 open Driver
 
-def comps : List Comp := [LatchD.comp]
+def comps : List Comp := [LatchD.comp, LockFamD.comp, BarrierD.comp]
 
 def main (args : List String) : IO UInt32 := do
   match args with
